@@ -557,6 +557,49 @@ pub fn e2_spec(id: &str, tier: &str) -> Option<crate::e2::E2Spec> {
             }
             Some(E2Spec { id: "C21", scens, cap_s: cap, rule: RULE_E2, assumptions: e2_assumptions() })
         }
+        "C24" => {
+            let mut scens = Vec::new();
+            let p = progs::struct_set().remove(0); // two creators (nodes 0 and 3)
+            let pi = progs::intern_canon_prog(1);
+            let mk = |name: &str, prog: &ql::ex::Program, setup: Vec<Op>, threads: Vec<Vec<Op>>, bound: u32| Scen {
+                name: name.to_string(),
+                prog: prog.clone(),
+                setup,
+                threads,
+                phase2_writes: vec![Op::Set(0, 1)],
+                phase2: false,
+                bound,
+                oracle: Oracle::Distinct,
+                writer: vec![],
+            };
+            let k = if quick { 2 } else { 3 };
+            // inputs created concurrently on fresh clones
+            scens.push(mk("inputs-2t", &p, vec![], vec![vec![Op::NewInput(1), Op::NewInput(2)], vec![Op::NewInput(3), Op::NewInput(4)]], k));
+            // a 126/128 page left behind by a dropped handle: the page-full transition and the
+            // hand-over of the unfilled page happen inside the explored window
+            scens.push(mk(
+                "inputs-page-full-2t",
+                &p,
+                vec![Op::Prefill(126)],
+                vec![vec![Op::NewInput(1), Op::NewInput(2), Op::NewInput(3)], vec![Op::NewInput(4), Op::Reclone, Op::NewInput(5)]],
+                if quick { 1 } else { 2 },
+            ));
+            // handles dropped and re-cloned mid-run
+            scens.push(mk("inputs-reclone-2t", &p, vec![Op::Prefill(3)], vec![vec![Op::NewInput(1), Op::Reclone, Op::NewInput(2)], vec![Op::Reclone, Op::NewInput(3), Op::NewInput(4)]], k));
+            // tracked structs created by two creators on two threads (+ field read-back)
+            scens.push(mk("structs-2t", &p, vec![], vec![vec![Op::Q(0), Op::QFld(0, 0, 1)], vec![Op::Q(3), Op::QFld(3, 0, 0)]], k));
+            scens.push(mk("structs-same-creator-2t", &p, vec![], vec![vec![Op::Q(0)], vec![Op::Q(0), Op::Q(3)]], k));
+            // interned values
+            scens.push(mk("interned-2t", &pi, vec![], vec![vec![Op::QInt(1, 0), Op::QInt(1, 1)], vec![Op::QInt(1, 2), Op::QInt(1, 1)]], k));
+            scens.push(mk(
+                "mixed-3t",
+                &p,
+                vec![Op::Prefill(2)],
+                vec![vec![Op::NewInput(1), Op::Q(0)], vec![Op::Q(3), Op::NewInput(2)], vec![Op::Reclone, Op::NewInput(3)]],
+                if quick { 1 } else { 2 },
+            ));
+            Some(E2Spec { id: "C24", scens, cap_s: cap, rule: RULE_E2, assumptions: e2_assumptions() })
+        }
         "C18" => {
             let mut scens = Vec::new();
             for kind in [Kind::Fx, Kind::Fxj, Kind::Fb] {
